@@ -154,6 +154,56 @@ fn matching_origins() {
     std::mem::forget((n, base));
 }
 
+/// @tier quick thorough
+/// @fn rpki::rrdp::NotificationFile::has_matching_origins rpki::uri::Https::eq_authority
+///   rpki::uri::Https::authority
+/// @bounds base, snapshot and one delta URI of the shapes https://X/p and
+///   https://XY/p (authority of one or two arbitrary letters, the length
+///   being the solver's choice per URI); unwind 6
+/// @says authorities of different length never match, even when one is a
+///   prefix of the other: the origin check succeeds exactly when snapshot
+///   and delta authority equal the base's in length and, ignoring case, in
+///   every byte
+#[kani::proof]
+#[kani::unwind(6)]
+fn matching_origins_authority_lengths() {
+    let l: [u8; 6] = kani::any();
+    let two: [bool; 3] = kani::any();
+    let alpha = |c: u8| (c | 0x20) >= b'a' && (c | 0x20) <= b'z';
+    kani::assume(alpha(l[0]) && alpha(l[1]) && alpha(l[2]) && alpha(l[3])
+        && alpha(l[4]) && alpha(l[5]));
+    let mk = |c: u8, d: u8, two: bool| -> Https {
+        if two {
+            let b: &'static [u8; 12] = Box::leak(Box::new(
+                [b'h', b't', b't', b'p', b's', b':', b'/', b'/', c, d, b'/',
+                 b'p']));
+            Https::verif_from_parts(bytes::Bytes::from_static(b), 10)
+        } else {
+            let b: &'static [u8; 11] = Box::leak(Box::new(
+                [b'h', b't', b't', b'p', b's', b':', b'/', b'/', c, b'/',
+                 b'p']));
+            Https::verif_from_parts(bytes::Bytes::from_static(b), 9)
+        }
+    };
+    let base = mk(l[0], l[1], two[0]);
+    let n = NotificationFile::new(
+        uuid::Uuid::nil(), 1,
+        UriAndHash::new(mk(l[2], l[3], two[1]), Hash::from([0u8; 32])),
+        vec![DeltaInfo::new(1, mk(l[4], l[5], two[2]),
+                            Hash::from([0u8; 32]))],
+    );
+    let same = |a: u8, b: u8| (a | 0x20) == (b | 0x20);
+    let eq = |i: usize, t: bool| t == two[0] && same(l[0], l[i])
+        && (!t || same(l[1], l[i + 1]));
+    let want = eq(2, two[1]) && eq(4, two[2]);
+    kani::cover!(want && two[0]);
+    kani::cover!(!want && same(l[0], l[2]) && two[0] && !two[1]);
+    kani::cover!(!want && same(l[0], l[4]) && !two[0] && two[2]
+        && eq(2, two[1]));
+    assert_eq!(n.has_matching_origins(&base), want);
+    std::mem::forget((n, base));
+}
+
 fn stub_format(_: std::fmt::Arguments<'_>) -> String {
     String::new()
 }
